@@ -179,6 +179,14 @@ class BuiltinMixin:
             if isinstance(h, HSeqList):
                 return VI(z3.Length(h.seq))
             return VI(len(h.items))
+        if a.k == 'dict' and self.st.heap[a.t].sym:
+            # number of distinct (symbolic) keys: entry i counts if no later entry has an equal key
+            ent = self.st.heap[a.t].sym
+            tot = z3.IntVal(0)
+            for i, (k_, _) in enumerate(ent):
+                later = [self.equal(k_, k2) for k2, _ in ent[i + 1:]]
+                tot = tot + z3.If(z3.Or(*later) if later else z3.BoolVal(False), 0, 1)
+            return VI(tot)
         if a.k == 'dict':
             return VI(len(self.st.heap[a.t].d))
         if a.k == 'const':
